@@ -101,7 +101,7 @@ def _execute(item):
     counts = dict(rec.get("counts") or {})
     label = optplan.item_label(item)
     out = {"counts": counts, "nkey": label + "|" + _c03._short(item)}
-    if rec.get("skip") and not rec.get("c04"):
+    if rec.get("skip") and not rec.get("c04") and not rec.get("validated"):
         out.update(status="skip", skip=rec["skip"], outcome="skip:" + rec["skip"].split(":")[0])
         return out
     viols = []
